@@ -110,6 +110,7 @@ func (dht *IpfsDHT) GetClosestPeers(ctx context.Context, key string) ([]peer.ID,
 import recpb "github.com/libp2p/go-libp2p-record/pb"
 # ---- request handlers (C09) -----------------------------------------------
 immutable "github.com/libp2p/go-libp2p-kad-dht.providerPeersTagSize"
+axiom provtagsize_nonneg: providerPeersTagSize >= 0
 
 # decoded protobuf messages never contain nil elements in repeated fields
 # (contract of the protobuf decoder, assumed)
@@ -156,7 +157,7 @@ func (dht *IpfsDHT) handlePutValue(ctx context.Context, p peer.ID, pmes *pb.Mess
 
 func (dht *IpfsDHT) handleFindPeer(ctx context.Context, from peer.ID, pmes *pb.Message) (_ *pb.Message, _err error)
   props C09
-  requires cfgOK(dht) && pb.peerAddrsTagSize >= 0
+  requires cfgOK(dht)
   modifies nothing
   ensures imp(result1 != nil, result0 == nil)
   ensures imp(result1 == nil, result0 != nil && len(result0.CloserPeers) <= dht.bucketSize + 1 && len(result0.ProviderPeers) == 0)
@@ -174,7 +175,6 @@ func (dht *IpfsDHT) filterAddrs(addrs []ma.Multiaddr) []ma.Multiaddr
 
 func appendFittingProviderPeers(resp *pb.Message, recs iter.Seq[*pb.Message_Peer])
   props C09
-  requires providerPeersTagSize >= 0
   ghostvar $sum int = 0
   let base = proto.Size(resp)
   modifies resp.ProviderPeers
@@ -186,7 +186,7 @@ func appendFittingProviderPeers(resp *pb.Message, recs iter.Seq[*pb.Message_Peer
 
 func (dht *IpfsDHT) handleGetValue(ctx context.Context, p peer.ID, pmes *pb.Message) (_ *pb.Message, err error)
   props C09 C05
-  requires dht.valueStore != nil && cfgOK(dht) && pb.peerAddrsTagSize >= 0
+  requires dht.valueStore != nil && cfgOK(dht)
   ghostvar $rec *recpb.Record = nil
   ghostvar $k string = ""
   modifies *
@@ -199,7 +199,7 @@ func (dht *IpfsDHT) handleGetValue(ctx context.Context, p peer.ID, pmes *pb.Mess
 
 func (dht *IpfsDHT) handleGetProviders(ctx context.Context, p peer.ID, pmes *pb.Message) (_ *pb.Message, _err error)
   props C09
-  requires dht.providerStore != nil && cfgOK(dht) && pb.peerAddrsTagSize >= 0 && providerPeersTagSize >= 0
+  requires dht.providerStore != nil && cfgOK(dht)
   modifies *
   ensures imp(result1 != nil, result0 == nil)
   ensures imp(result1 == nil, result0 != nil && len(result0.CloserPeers) <= dht.bucketSize)
@@ -207,7 +207,7 @@ func (dht *IpfsDHT) handleGetProviders(ctx context.Context, p peer.ID, pmes *pb.
 
 func (dht *IpfsDHT) handleAddProvider(ctx context.Context, p peer.ID, pmes *pb.Message) (_ *pb.Message, _err error)
   props C09 C07 C15
-  requires dht.providerStore != nil && pb.peerAddrsTagSize >= 0 && msgWF(pmes)
+  requires dht.providerStore != nil && msgWF(pmes)
   ghostvar $filtered []ma.Multiaddr = nil
   ghostvar $in []ma.Multiaddr = nil
   modifies *
@@ -215,4 +215,80 @@ func (dht *IpfsDHT) handleAddProvider(ctx context.Context, p peer.ID, pmes *pb.M
   ghost at before call(filterAddrs): $in = $arg0
   ghost at call(filterAddrs): $filtered = $ret0
   ghost at before call(AddProvider): assert($arg2.ID == p); assert(len($in) >= 1); assert($arg2.Addrs == $filtered); assert(len($arg1) >= 1 && len($arg1) <= 80 && $arg1 == old(pmes.Key))
+
+# ---- value search (C04, C06) ---------------------------------------------------
+role newVal(ctx context.Context, v recvdVal, better bool) bool in (dht *IpfsDHT) processValues(ctx context.Context, key string, vals <-chan recvdVal, newVal func(ctx context.Context, v recvdVal, better bool) bool) (best []byte, peersWithBest map[peer.ID]struct{}, aborted bool)
+  pure
+
+func (dht *IpfsDHT) processValues(ctx context.Context, key string, vals <-chan recvdVal, newVal func(ctx context.Context, v recvdVal, better bool) bool) (best []byte, peersWithBest map[peer.ID]struct{}, aborted bool)
+  props C04 C06
+  ghostvar $sel bool = false
+  ghostvar $wasNil bool = false
+  modifies nothing
+  loop 0 invariant imp(best != nil, peersWithBest != nil) && (peersWithBest == nil || fresh(peersWithBest))
+  ghost at call(Select): $sel = ($ret1 == nil && $ret0 == 1 && len($arg1) == 2 && $arg1[0] == best && $arg1[1] == v.Val && $arg0 == key)
+  ghost at assign(peersWithBest): $wasNil = (best == nil)
+  ghost at before call(newVal)#0: assert(!$arg2 && $arg1 == v && has(peersWithBest, v.From))
+  ghost at before call(newVal)#1: assert(!$arg2 && $arg1 == v)
+  ghost at before call(newVal)#2: assert($arg2 && $arg1 == v && best == v.Val); assert($wasNil || $sel); assert(len(peersWithBest) == 1 && has(peersWithBest, v.From))
+
+func (dht *IpfsDHT) searchValueQuorum(ctx context.Context, key string, valCh <-chan recvdVal, stopCh chan struct{}, out chan<- []byte, nvals int) ([]byte, map[peer.ID]struct{}, bool)
+  props C04
+  modifies nothing
+
+# the per-value callback of a quorum search: a strictly better value is always
+# handed to the consumer before the search may be stopped
+funclit 0 in (dht *IpfsDHT) searchValueQuorum(ctx context.Context, key string, valCh <-chan recvdVal, stopCh chan struct{}, out chan<- []byte, nvals int) ([]byte, map[peer.ID]struct{}, bool)
+  props C04
+  ensures [emit-before-stop] imp(better, tagged("sent:out") || tagged("recv:ctx.Done()"))
+  ensures [stop-only-past-quorum] imp(result && tagged("closed:stopCh"), nvals > 0 && numResponses > nvals)
+
+func (dht *IpfsDHT) getValues(ctx context.Context, key string, stopQuery chan struct{}) (<-chan recvdVal, <-chan *lookupWithFollowupResult)
+  props C04
+  ghostvar $ok bool = false
+  ghostvar $v []byte = nil
+  chan_inv valCh : $ok && $msg.Val == $v && $msg.From == dht.self
+  modifies *
+  ghost at call(Validate): $ok = ($ret0 == nil && $arg0 == key); $v = $arg1
+
+funclit 1 in (dht *IpfsDHT) getValues(ctx context.Context, key string, stopQuery chan struct{}) (<-chan recvdVal, <-chan *lookupWithFollowupResult)
+  props C04
+  ghostvar $ok bool = false
+  ghostvar $v []byte = nil
+  chan_inv valCh : $ok && $msg.Val == $v && $msg.From == p
+  ghost at call(Validate): $ok = ($ret0 == nil && $arg0 == key); $v = $arg1
+  ghost at before call(GetValue)#0: assert($arg1 == p && $arg2 == key)
+
+func (dht *IpfsDHT) PutValue(ctx context.Context, key string, value []byte, opts ...routing.Option) (err error)
+  props C05 C06
+  requires cfgOK(dht)
+  ghostvar $valid bool = false
+  ghostvar $old *recpb.Record = nil
+  ghostvar $sel0 bool = false
+  ghostvar $eq bool = false
+  ghostvar $putDone bool = false
+  modifies *
+  ghost at call(Validate): $valid = ($ret0 == nil && $arg0 == key && $arg1 == value)
+  ghost at call(getLocal): $old = $ret0
+  ghost at call(Equal): $eq = $ret0
+  ghost at call(Select): $sel0 = ($ret1 == nil && $ret0 == 0 && $arg0 == key && len($arg1) == 2 && $arg1[0] == value)
+  ghost at before call(putLocal): assert($valid && $arg1 == key && $arg2 == rec); assert($old == nil || $eq || $sel0)
+  ghost at call(putLocal): $putDone = ($ret0 == nil)
+  ghost at before call(GetClosestPeers): assert($putDone && $arg1 == key)
+
+funclit 1 in (dht *IpfsDHT) PutValue(ctx context.Context, key string, value []byte, opts ...routing.Option) (err error)
+  props C06
+  ghost at before call(PutValue): assert($arg1 == p && $arg2 == rec)
+
+funclit 1 in (dht *IpfsDHT) SearchValue(ctx context.Context, key string, opts ...routing.Option) (ch <-chan []byte, err error)
+  props C06
+  requires cfgOK(dht)
+  loop 0 invariant len(updatePeers) <= $key
+  ghost at append(updatePeers): assert(!has(peersWithBest, p))
+  ghost at before call(updatePeerValues): assert($arg1 == key && $arg2 == best && $arg3 == updatePeers && best != nil && !aborted)
+
+func (dht *IpfsDHT) GetValue(ctx context.Context, key string, opts ...routing.Option) (result []byte, err error)
+  props C04
+  modifies *
+  ensures [found-or-error] imp(err == nil, result != nil)
 @*/
